@@ -107,6 +107,24 @@ def cpython_sig(toks, src):
     return out, layout
 
 
+_FPRE = re.compile(r'''(?i)^(?:rf|fr|f)(\'\'\'|"""|\'|")''')
+
+
+def pep701_only(tok_text):
+    """True for a (folded) f-string token that only the PEP 701 tokenizer of CPython >= 3.12 accepts as one string: its own
+    quote reused inside a replacement field, or a line break inside a single-quoted f-string that is not a backslash
+    continuation.  parso does not implement this part of PEP 701 (listed finding F-C10-2)."""
+    m = _FPRE.match(tok_text)
+    if not m:
+        return False
+    q = m.group(1)
+    body = tok_text[m.end():-len(q)] if tok_text.endswith(q) and len(tok_text) >= m.end() + len(q) else tok_text[m.end():]
+    plain = re.sub(r'\\(?:\r\n|.)', '', body, flags=re.S)        # escapes and backslash continuations removed
+    if q in plain:
+        return True
+    return len(q) == 1 and ('\n' in plain or '\r' in plain)
+
+
 def self_consistent(toks, src):
     """every CPython token string equals the source slice at its coordinates (drops unreliable oracle output)"""
     lines = ref_split_lines(src, True) + ['']
@@ -140,7 +158,8 @@ class C10(Prop):
             'type+line for INDENT; each CPython COMMENT/NL lies inside a parso prefix. Non-trivial: >=3 token kinds besides '
             'NAME/OP/NEWLINE, or an f-string, or INDENT. Distinct by (text, version).')
     assumptions = ['the pyenv CPython interpreters are the reference; a missing interpreter is recorded as not explored',
-                   'form feed in the indentation of a logical line is a listed finding (F-C10-1) and excluded by construction']
+                   'form feed in the indentation of a logical line is a listed finding (F-C10-1) and excluded by construction',
+                   'f-strings that only the PEP 701 tokenizer accepts as one token (own quote reused in a field, line break in a single-quoted f-string) are a listed finding (F-C10-2): counted, signature-matched']
     budgets = {'quick': 16000, 'thorough': 300000}
     min_nontrivial_fraction = 0.05
 
@@ -189,6 +208,7 @@ class C10(Prop):
         except Exception as e:
             return Outcome(fail=crash_signature(e), nontrivial=True, key=digest(code, v))
         b, layout = cpython_sig(r['tokens'], code)
+        pep701 = client.JUDGE[v] in ('3.12', '3.13') and any(t[0] == 'STRING' and pep701_only(t[1]) for t in b)
         lines = ref_split_lines(code, True)
         fail = None
         for i, (x, y) in enumerate(zip(a, b)):
@@ -220,6 +240,8 @@ class C10(Prop):
                     break
         if fail is not None and trigger:
             fail = (fail[0] + '+formfeed-in-indentation', fail[1])
+        elif fail is not None and pep701:
+            fail = ('token-differs+pep701-fstring', fail[1])
         kinds = {x[0] for x in a}
         classes = []
         if any(x[0] == 'STRING' and re.match(r'(?i)[rb]?f', x[1]) for x in a):
@@ -232,7 +254,8 @@ class C10(Prop):
             classes.append('non-ascii')
         classes.append('py' + client.JUDGE[v])
         return Outcome(fail=fail, nontrivial=bool(set(classes) & {'fstring', 'indent', '>=3-kinds'}), classes=classes,
-                       excluded='F-C10-1 trigger present (form feed in indentation)' if trigger else None,
+                       excluded=('F-C10-1 trigger present (form feed in indentation)' if trigger else
+                                 'F-C10-2 trigger present (PEP 701-only f-string)' if pep701 else None),
                        key=digest(code, v), units=len(a))
 
     def sample_repr(self, case):
